@@ -83,6 +83,17 @@ func (x *Exec) libModel(st *State, in ssa.Instruction, callee *ssa.Function, nam
 		return ret(leaf(rt, fmt.Sprintf("(timeofunix %s %s)", args[0].Term, args[1].Term)))
 	case "errors.New", "fmt.Errorf", "github.com/pkg/errors.New", "github.com/pkg/errors.Errorf", "github.com/pkg/errors.Wrap", "github.com/pkg/errors.Wrapf":
 		return ret(x.errValue(st, rt, "new"))
+	case "context.WithTimeout", "context.WithCancel", "context.WithDeadline":
+		// (ctx, cancel): a fresh context and a cancel function without modelled effect
+		rs := x.freshResults(st, sig, "ctx")
+		if len(rs) == 2 {
+			rs[1] = &Value{K: KFunc, T: sig.Results().At(1).Type(), Fn: &Closure{FnName: "lib:noop"}}
+		}
+		k(st, rs)
+		return true
+	case "context.TODO", "context.Background":
+		k(st, x.freshResults(st, sig, "ctx"))
+		return true
 	case "errors.Unwrap":
 		// some error, nil when the argument is nil; a deterministic function of the argument
 		v := x.freshValue(st, rt, "unwrap")
